@@ -212,19 +212,19 @@ pub fn apply_fn_model(name: &str, m: &FnModel, arg: &Value) -> Result<Value, Eva
         FnModel::Fail => Err(EvalexprError::CustomMessage(format!("fail {}", arg))),
         FnModel::IntMap => match arg {
             Value::Int(k) => Ok(Value::Int(k.rem_euclid(5) - 2)),
-            _ => Err(EvalexprError::CustomMessage(format!("{}: not an int", name))),
+            _ => Err(EvalexprError::CustomMessage("model function: not an int".to_string())),
         },
         FnModel::BoolMap => match arg {
             Value::Int(k) => Ok(Value::Boolean(k.rem_euclid(2) == 0)),
-            _ => Err(EvalexprError::CustomMessage(format!("{}: not an int", name))),
+            _ => Err(EvalexprError::CustomMessage("model function: not an int".to_string())),
         },
         FnModel::StrMap => match arg {
             Value::Int(k) => Ok(Value::String(format!("s{}", k))),
-            _ => Err(EvalexprError::CustomMessage(format!("{}: not an int", name))),
+            _ => Err(EvalexprError::CustomMessage("model function: not an int".to_string())),
         },
         FnModel::FloatMap => match arg {
             Value::Int(k) => Ok(Value::Float(*k as f64 / 2.0)),
-            _ => Err(EvalexprError::CustomMessage(format!("{}: not an int", name))),
+            _ => Err(EvalexprError::CustomMessage("model function: not an int".to_string())),
         },
     }
 }
